@@ -1151,6 +1151,7 @@ func (c06Prop) Execute(p *Plan, run *Run) any {
 		for _, kd := range d.kinds {
 			run.Sig("%s|%s|%s|%s", entry, kd, a.codec, tname)
 		}
+		tick()
 		if o.pan != nil {
 			run.Violation("c06/panic:"+panicClass(o.pan), o.site, fmt.Sprintf("%s: panic: %v", what, o.pan), narrow())
 			return false
